@@ -806,13 +806,7 @@ fn execute(args: &Opts, input: String, filename: Option<PathBuf>) -> Result<Vec<
 	// Let's figure out if we want to print the whole buffer
 	let no_fields = ctx.fmt_lines.is_empty(); // No fields were extracted
 	let has_files = !ctx.args.files.is_empty(); // We have files to edit
-	let has_pattern_search = ctx.args.cmds.iter().any(|cmd| {
-		if let Cmd::Global { then_cmds, .. } = cmd {
-			then_cmds.iter().any(|cmd| matches!(cmd, Cmd::Field(_) | Cmd::NamedField(_, _)))
-		} else {
-			false
-		}
-	});
+	let has_pattern_search = has_pattern_search(&ctx.args.cmds);
 	let editing_inplace = args.edit_inplace; // We are not editing in place
 
 	// If we have not extracted any fields, and the following conditions are true:
@@ -833,6 +827,23 @@ fn execute(args: &Opts, input: String, filename: Option<PathBuf>) -> Result<Vec<
 	}
 
 	Ok(ctx.fmt_lines)
+}
+
+/// Is there a `-g`/`-v` scope that extracts a field directly? `-r` repeats are looked through,
+/// so that a repeated command list is judged like the same list written out.
+fn has_pattern_search(cmds: &[Cmd]) -> bool {
+	fn extracts_field(cmds: &[Cmd]) -> bool {
+		cmds.iter().any(|cmd| match cmd {
+			Cmd::Field(_) | Cmd::NamedField(_, _) => true,
+			Cmd::Repeat { body, .. } => extracts_field(body),
+			_ => false
+		})
+	}
+	cmds.iter().any(|cmd| match cmd {
+		Cmd::Global { then_cmds, .. } => extracts_field(then_cmds),
+		Cmd::Repeat { body, .. } => has_pattern_search(body),
+		_ => false
+	})
 }
 
 /// Trim the fields 🧑‍🌾
